@@ -39,6 +39,11 @@ FieldCases(s) ==
   {[type |-> s.type, op |-> "TruncField", k |-> k] : k \in ks} \cup
   {[type |-> s.type, op |-> "SwapFields", k |-> k] : k \in ks} \cup
   {[type |-> s.type, op |-> "SetField", k |-> k, v |-> FieldValues[j]] : k \in ks, j \in 1..Len(FieldValues)}
+\* the fields that carry a dimension, a count or an index, set to the neighbours of the library's limits and of the
+\* sample's own dimensions (a later element of another dimension than the first one, one player more or less, ...)
+DimValues == <<"0", "1", "2", "3", "4", "9", "10", "11", "31", "32", "33", "511", "512", "513">>
+DimCases(s) ==
+  {[type |-> s.type, op |-> "SetDim", k |-> s.dims[d], v |-> DimValues[j]] : d \in 1..Len(s.dims), j \in 1..Len(DimValues)}
 CharCases(s) ==
   LET os == {o \in 0..s.nc : s.nc <= 400 \/ o % Stride = 0 \/ o > s.nc - 8} IN
   {[type |-> s.type, op |-> "TruncChar", k |-> o] : o \in os}
@@ -48,7 +53,7 @@ ByteCases(s) ==
   {[type |-> s.type, op |-> "FlipByte", k |-> o, v |-> 1] : o \in os} \cup
   {[type |-> s.type, op |-> "SetBytes", k |-> o, v |-> LenPatterns[j]] : o \in os, j \in 1..Len(LenPatterns)} \cup
   {[type |-> s.type, op |-> "InsBytes", k |-> o, v |-> LenPatterns[j]] : o \in os, j \in 1..Len(LenPatterns)}
-CasesOf(s) == IF s.binary THEN CharCases(s) \cup ByteCases(s) ELSE FieldCases(s) \cup CharCases(s)
+CasesOf(s) == IF s.binary THEN CharCases(s) \cup ByteCases(s) ELSE FieldCases(s) \cup DimCases(s) \cup CharCases(s)
 
 VARIABLES i, done
 Init == i = 1 /\ done = FALSE
